@@ -5,7 +5,7 @@ From Coq Require Import List NArith ZArith Bool Lia.
 From Common Require Import Bytes Outcome.
 From Gen Require Import C09.
 From C09 Require Import Model Model4 ModelT Util Proofs_12 Proofs_4edges Proofs_4spec
-  Proofs_4emit Proofs_4dec Proofs_4rt Proofs_T Proofs_06 Proofs_Trt.
+  Proofs_4emit Proofs_4dec Proofs_4rt Proofs_T Proofs_06 Proofs_Trt ModelLk Proofs_lk.
 Import ListNotations.
 Local Open Scope N_scope.
 
@@ -181,6 +181,42 @@ Proof.
   exists b, m'. repeat split; assumption.
 Qed.
 Print Assumptions format4_roundtrip.
+
+(* "gives the same glyph for EVERY code point and glyph 0 for every unmapped
+   one", all code points queried: Format4.Lookup (M_lookup4, the method behind
+   Subtable.Lookup for format 4 and format 6 subtables) on the map decoded from
+   the emitted bytes gives m c for c <= 0xFFFF and glyph 0 for every other code
+   point (no bound: also beyond U+10FFFF) and for negative runes. *)
+Theorem format4_roundtrip_all_code_points :
+  forall (m : N -> N), (forall c, m c < 65536) ->
+  forall (segs : list seg4) (lang : N),
+    lang < 65536 -> path m 0 segs -> emit4_size m segs <= 65535 ->
+    exists b m',
+      M_emit4 m segs lang = Ok b /\
+      M_decode4 (fun c => c) b = Ok m' /\
+      (forall c, M_lookup4 m' (Z.of_N c) = S_lookup16_full m c) /\
+      (forall r, (r < 0)%Z -> M_lookup4 m' r = 0).
+Proof.
+  intros m Hm segs lang Hl Hp Hs.
+  destruct (format4_roundtrip m Hm segs lang Hl Hp Hs) as (b & m' & H1 & H2 & _ & H4).
+  exists b, m'. repeat split; try assumption.
+  - intros c. apply lookup4_full. exact H4.
+  - intros r Hr. apply lookup4_outside. now left.
+Qed.
+Print Assumptions format4_roundtrip_all_code_points.
+
+Theorem lookup4_outside_bmp_is_notdef :
+  forall (m : amap) (r : Z), (r < 0 \/ 65535 < r)%Z -> M_lookup4 m r = 0.
+Proof. exact lookup4_outside. Qed.
+Print Assumptions lookup4_outside_bmp_is_notdef.
+
+(* the code as found (cmap[uint16(r)]) answered a supplementary code point
+   with the glyph of its low 16 bits: genuine defect, repaired in /repo
+   (findings/C09.json c09-lookup-beyond-bmp) *)
+Theorem lookup4_as_found_refuted :
+  exists (m : amap) (r : Z), (65535 < r <= 1114111)%Z /\ M_lookup4_found m r <> 0 /\ M_lookup4 m r = 0.
+Proof. exact lookup4_found_wraps. Qed.
+Print Assumptions lookup4_as_found_refuted.
 
 (* P1 (C02 part): decodeFormat4 never panics, for any bytes and any code2rune. *)
 Theorem decode4_total :
